@@ -21,6 +21,17 @@ _MEM_NOTE = (
     "10^5 SAT variables.")
 
 
+# Per-loop unwinding bounds (vlib/kani.py resolve_unwind_patterns; unwinding assertions stay on, so a bound that is too
+# small is reported as inconclusive, never silently truncated).  The loops of create_sample_collection that run over the
+# collection being built (the `samples` vector and the function's own two post-processing loops) are the expensive ones
+# (see _MEM_NOTE); every harness of this family stores at most ONE sample, so 2 iterations suffice for them while the
+# global bound of the harness (mask `contains` loops, instance lookups) stays at 3.
+_CAPS = [
+    (r"SampleInfo\)> as std::iter", 2),
+    (r"::create_sample_collection$", 2),
+]
+
+
 def _wrapper_guard():
     """The C23 harness mirrors the two-line wrapper composition; pin the wrapper text in /repo."""
     path = os.path.join(REPO, "dds/src/dcps/dcps_domain_participant/user_defined_data_reader.rs")
@@ -88,6 +99,7 @@ prop(
     ],
     timeout={"quick": 1500, "thorough": 3000},
     mem_gb=12,
+    unwind_patterns=_CAPS,
 )
 
 prop(
@@ -130,6 +142,7 @@ prop(
     ],
     timeout={"quick": 1500, "thorough": 3000},
     mem_gb=12,
+    unwind_patterns=_CAPS,
 )
 
 prop(
@@ -169,6 +182,7 @@ prop(
     ],
     timeout={"quick": 1500, "thorough": 3000},
     mem_gb=12,
+    unwind_patterns=_CAPS,
 )
 
 prop(
@@ -209,4 +223,5 @@ prop(
     ],
     timeout={"quick": 1500, "thorough": 3000},
     mem_gb=12,
+    unwind_patterns=_CAPS,
 )
